@@ -648,6 +648,8 @@ class Evaluator(CallMixin, StmtMixin):
             for k, ci in res.items():
                 m = self.prog.find_method(ci, attr) if ci is not None else None
                 targets[k] = (id(m[1]) if m else None)
+                if m is None and ci is not None and (self.attr_kinds_from_annotation(ci, attr) is not None or self.class_assigns_attr(ci, attr)):
+                    targets[k] = ("data", ci.name)     # a field of this class: not a method of unknown code
             if len(set(targets.values())) > 1:
                 groups: Dict[Any, set] = {}
                 for k, t in targets.items():
@@ -667,6 +669,12 @@ class Evaluator(CallMixin, StmtMixin):
                 return SFunc(dc.module, fn, None, dc, None, f"{dc.name}.{attr}")
             if "property" in decos:
                 return self.call_function(SFunc(dc.module, fn, o, dc, None, f"{dc.name}.{attr}"), [], {}, node=node)
+            if "cached_property" in decos:
+                # functools.cached_property: the first access computes the value and stores it in the instance dictionary
+                val = self.call_function(SFunc(dc.module, fn, o, dc, None, f"{dc.name}.{attr}"), [], {}, node=node)
+                self.run.effect("store_attr", o, attr, val, node)
+                o.attrs[attr] = val
+                return val
             return SFunc(dc.module, fn, o, dc, None, f"{dc.name}.{attr}")
         # data attribute
         if ci0 is not None:
@@ -1497,9 +1505,11 @@ class Evaluator(CallMixin, StmtMixin):
                     return l
             # which element kinds can pass the filter (decided per kind where the conditions only test the kind)
             pass_kinds = None
+            drop_kinds = None
             if g.ifs and coll is not None and isinstance(g.target, ast.Name):
                 from .interp import NeedsDecision as _ND
                 pass_kinds = set()
+                drop_kinds = set()
                 saved_t = self.frame.env.get(g.target.id, _NOVAL)
                 self.run.path.frozen = True
                 try:
@@ -1514,8 +1524,11 @@ class Evaluator(CallMixin, StmtMixin):
                                 if not v_:
                                     ok_k = False
                                     break
+                            if not ok_k:
+                                drop_kinds.add(k)            # never passes
                         except (_ND, Unmodelled):
                             ok_k = True      # value-dependent: elements of this kind may pass
+                            drop_kinds.add(k)                # ... and may be dropped
                         if ok_k:
                             pass_kinds.add(k)
                 finally:
@@ -1556,6 +1569,7 @@ class Evaluator(CallMixin, StmtMixin):
                 l.__dict__["frame_env"] = self.frame.env
                 l.__dict__["identity"] = is_identity
                 l.__dict__["pass_kinds"] = pass_kinds
+                l.__dict__["drop_kinds"] = drop_kinds
                 return l
             var = self.generic_element(it, g.target, e)
             self.bind_target(g.target, var, e)
